@@ -33,6 +33,10 @@ def build(tier, seed):
     # (same master secret, version and suite, fresh randoms), unrelated connections with the same suite, the same in two run() calls of one process
     for i in range(1500 if thorough else 90):
         cases.append({"id": f"pair-{i}", "kind": "pair", "i": i})
+    # captures merged from two tap directions: the server's first flight is captured in front of the ClientHello it answers.  No observer is obliged to find keys for
+    # such a connection - but whatever *is* installed for it must be its RFC key set
+    for j, (v, code, name, p) in enumerate(mx if thorough else [m for j, m in enumerate(mx) if j % 6 == 0]):
+        cases.append({"id": f"swapped-{suites.VNAME[v]}-{code:04X}", "kind": "tls", "v": v, "code": code, "rep": j, "swapped": True})
 
     def evalfn(case):
         rng = random.Random(engine.subseed("C15", seed, case["id"]))
@@ -119,7 +123,15 @@ def eval_tls(case, rng):
             spec.master = search(edge, make12, srng) if not (edge.endswith("iv-zero") and not iv_len) else None
     conn = tlssynth.build_conn(spec, rng)
     ep = tcpcap.random_ep(rng)
-    fl = scene.tls_flow(conn, ep, tcpcap.segments(conn.events, ep, tcpcap.cut_mss(1460)))
+    segs = tcpcap.segments(conn.events, ep, tcpcap.cut_mss(1460))
+    swapped = case.get("swapped")
+    if swapped:
+        b0 = [x for x in segs if x.payload and x.burst == 0]
+        b1 = [x for x in segs if x.payload and x.burst == 1]
+        rest = [x for x in segs if not (x.payload and x.burst in (0, 1))]
+        k = next((i for i, x in enumerate(rest) if x.payload), len(rest))
+        segs = rest[:k] + b1 + b0 + rest[k:]
+    fl = scene.tls_flow(conn, ep, segs)
     items = scene.stamp(scene.merge([fl], rng, "concat"), rng)
     mon = monitors.TlsStateMonitor()
     res, files, argv = e2e.run_capture(scene.capture(items), scene.keylog_text([fl], rng), child_setup=mon.install)
@@ -148,6 +160,18 @@ def eval_tls(case, rng):
         if m2:
             return dict(out, v="inconclusive", msg="key monitor unavailable and the export is not exact (C01 decides): " + m2[0][:200], nontrivial=False)
         return dict(out, v="held", nontrivial=True, mon={"tls.keys_observed_indirectly": 1})
+    if swapped:
+        # every key set installed for the connection must be its own; none installed is no violation (and no evidence)
+        out["cls"].append("hello-swapped")
+        out["tags"].append("tls:hello-swapped:" + ("installed" if inits else "nothing-installed"))
+        msgs, n = [], 0
+        for e in inits:
+            n += compare_installed(e, conn, spec, p, msgs)
+        out["mon"] = {"tls.key_components_compared": n, "tls.decryptor_init_events": len(inits), "tls.hello_swapped_runs": 1}
+        out["nontrivial"] = True
+        if msgs:
+            return dict(out, v="violated", msg=f"{suites.VNAME[v]} {suites.REGISTRY[code]}, ServerHello captured before the ClientHello: " + "; ".join(msgs[:3]), files=files)
+        return dict(out, v="held")
     if not inits:
         return dict(out, v="inconclusive", msg="Decryptor.__init__ was never reached: the key-installation monitor observed nothing", nontrivial=False)
     e = inits[-1]
